@@ -259,7 +259,7 @@ PROPS = {
         "level_text": "PARTIAL: machine-checked enabling lemmas for each progress step + whole-system simulation of the liveness claim on the real code (the 'eventually' itself is not a theorem).",
         "trusted_base": TB_COMMON + [
             "ideal signatures and collision-free digests (DESIGN 3.4): ed25519 and SHA-512 are modelled, not verified",
-            "netsim engine: real nodes (real node.rs wiring) on the in-memory simnet transport under tokio's paused virtual clock; harness proxies model links (latency >= 5 ms, cuts hang connections, no loss on healthy links)",
+            "netsim engine: real nodes (real node.rs wiring) on the in-memory simnet transport under tokio's paused virtual clock; harness proxies model links (latency >= 5 ms; a lossy cut hangs connections and resets them at healing; a lossless outage keeps the connection and delivers the waiting frames afterwards — the only kind used before stabilisation in the liveness scenario; no loss on healthy links)",
         ],
         "assumptions": ['the temporal claim is NOT proved (no fairness / real-time model of timers and TCP back-off); it is explored by simulation', 'virtual time: timers fire in deadline order; link latencies after stabilisation are 1-20 ms against a 1000 ms round timeout'],
         "explanation": 'Proved for every state/input: the timer always yields a timeout for the current round; a quorum of verified timeouts forms and broadcasts a TC and advances the round; a leader entering its round via a TC requests exactly one proposal; voting is enabled for a safe block of the current round; TCs/QCs synchronise views. Explored: netsim runs 4-7 REAL nodes with every kind of <= f crash set, random crash instants and random pre-stabilisation delays/cuts; after stabilisation every live node must commit in each window of (4(f+1)+6) timeouts; commit logs must agree. Also proved: L7/L9 the good case through the whole of handle_proposal in every reachable state (a verified leader proposal on stored ancestors is voted and commits its grandparent when rounds are consecutive), L8/L10 leader rotation versus any m faulty authorities (at most m faulty-led rounds in a row; with n >= 3m+1 three consecutive non-faulty leaders in every window of n rounds). The netsim engine also plays a directed partial-broadcast crash. L11 (timer_fires_exactly_duration_after_last_reset): the round timer (Model/Timer.lean, deadline rule Gen.timerDeadline regenerated from consensus/src/timer.rs, plus a shape check that Core resets it on start, on entering a round and after a local timeout) is ready exactly from timeout_delay after its LAST reset on; the engine timer runs the real Timer under the virtual clock against that model and an independent oracle. L12 (proposer_wait_ends_with_honest_acks): the wait of the proposer for acknowledgements after a broadcast (Model/ProposerWait.lean, guard Gen.proposerQuorum regenerated from consensus/src/proposer.rs with its initialisation and accumulation shape-checked) ends as soon as the non-faulty peers have acknowledged, at the first completion that reaches the quorum — never blocked by crashed peers; the engine proposerwait runs the real Proposer with every peer on simnet (Make, a second Make queued, ACKs released one at a time, some peers never answering) against that model and an independent stake oracle. N1 (lost_tc_leaves_nodes_stuck, Proofs/PacemakerStuck): why the premise "not lost" is needed — if the single broadcast of TC(r) is lost after part of the nodes used it and neither part holds a quorum, no sequence of timer expiries and timeouts ever moves a node (proved for every such sequence; it is what the simulation met on the real code with lossy cuts before stabilisation, DESIGN 0.7), so before stabilisation the simulation delays messages but never loses them.',
@@ -271,7 +271,7 @@ PROPS = {
         "level_text": 'PARTIAL: machine-checked protocol lemmas, and the safety half of convergence (delivery logs of honest nodes are prefixes of one another in every reachable global state: never_diverges); that a reconnected node DOES catch up is a liveness statement, explored by simulation on the real code.',
         "trusted_base": TB_COMMON + [
             "ideal signatures and collision-free digests (DESIGN 3.4): ed25519 and SHA-512 are modelled, not verified",
-            "netsim engine: real nodes (real node.rs wiring) on the in-memory simnet transport under tokio's paused virtual clock; harness proxies model links (latency >= 5 ms, cuts hang connections, no loss on healthy links)",
+            "netsim engine: real nodes (real node.rs wiring) on the in-memory simnet transport under tokio's paused virtual clock; harness proxies model links (latency >= 5 ms; a lossy cut hangs connections and resets them at healing; a lossless outage keeps the connection and delivers the waiting frames afterwards — the only kind used before stabilisation in the liveness scenario; no loss on healthy links)",
         ],
         "assumptions": ["convergence 'once reconnected' is a liveness statement: explored by simulation, not proved"],
         "explanation": "Proved for every state/input: a sync request from a member is answered with exactly the block stored under the digest (and stored blocks have the digest they are filed under); a block with a missing parent is parked, the parent requested from its author once, retried by broadcast; parked blocks resume only after the parent is stored; blocks enter the store only after their parents (oldest first). Explored: netsim isolates one real node for a random interval while the others commit (with/without view changes, slow first sync target) and requires its commit log to reach and equal the others'; the cons engine compares the single-node park/request/resume behaviour with the model. The engine syncretry runs the real Synchronizer with the DEFAULT retry delay at its real cadence (5 s ticks; the synchronizers read a tokio-driven clock in verification builds, hook H4): request to the author once, no retry before the delay, re-broadcast to all at the first tick past it and at every later one, resume exactly once when the parent is stored. The Synchronizer task itself is modelled with its timestamps (Model/Synchronizer.lean; its timer rule is the generated guard syncRetryDue, regenerated from consensus/src/synchronizer.rs on every run) and proved: first request to the author once (T1), the timer re-broadcasts exactly the overdue requests (T2), an unanswered request is re-broadcast at every tick past ts+delay whatever else happens (T3), resume exactly on the parent's arrival, each child once, no request left (T4); the engine syncretry replays every step of every case on that model (hsmodel `sy` commands) and compares the outputs step by step.",
@@ -283,7 +283,7 @@ PROPS = {
         "level_text": 'PARTIAL: machine-checked pipeline lemmas + whole-system simulation on the real code.',
         "trusted_base": TB_COMMON + [
             "ideal signatures and collision-free digests (DESIGN 3.4): ed25519 and SHA-512 are modelled, not verified",
-            "netsim engine: real nodes (real node.rs wiring) on the in-memory simnet transport under tokio's paused virtual clock; harness proxies model links (latency >= 5 ms, cuts hang connections, no loss on healthy links)",
+            "netsim engine: real nodes (real node.rs wiring) on the in-memory simnet transport under tokio's paused virtual clock; harness proxies model links (latency >= 5 ms; a lossy cut hangs connections and resets them at healing; a lossless outage keeps the connection and delivers the waiting frames afterwards — the only kind used before stabilisation in the liveness scenario; no loss on healthy links)",
         ],
         "assumptions": ['the end-to-end claim is a liveness statement over the whole system: explored by simulation, not proved', 'per-hand-over facts come from C11 (batching), C12 (quorum ACK), C08 (availability), C16 (store)'],
         "explanation": "Proved for every state/input: a digest from the mempool stays in the proposer's buffer until it goes into the node's next proposal or a Cleanup names it; a block with missing batches asks for exactly the missing ones from its author, is parked, and resumes exactly when all of them are stored. Explored: netsim submits client transactions to several real nodes (one node misses another's batch broadcasts) and checks on the real stores that every transaction is in a batch referenced by a block committed at EVERY node, readable under its digest. The peer-facing side of the mempool (Processor, Helper, Synchronizer, receiver dispatch) is modelled in Model/MempoolSync with 14 theorems (request exactly the new digests to the target, pending iff requested and not stored/cleaned, no second request while pending, retry exactly the overdue digests, a stored batch clears its request, helper replies with exactly the stored bytes) and driven in lock-step against a real Mempool::spawn by the engine mempoolsync (virtual clock via hook H4, incl. a retry delay longer than the tick period).",
